@@ -217,7 +217,7 @@ def run_corpus(ctx):
 
 
 def run(ctx):
-    n_nets = 120 if ctx.tier == 'quick' else 3000
+    n_nets = 400 if ctx.tier == 'quick' else 6000
     cap = 48 if ctx.tier == 'quick' else 512
     run_corpus(ctx)
     for k in range(n_nets):
